@@ -9,7 +9,7 @@ from ..model import AnalysisError, Cls, Func, Program, walk_own
 from ..orderings import NotAFormula, eval_order, weak_orderings
 from ..report import Report
 from ..resolve import const_value, dotted
-from ..util import calls_in, returns_of, src
+from ..util import calls_in, is_manager_expr, manager_fields, returns_of, src
 from .poolfam import PoolFacts, queue_call
 
 
@@ -280,6 +280,7 @@ def r5_exit(prog, rep: Report, pf: PoolFacts):
     rep.rule("C04.R5", "pool __exit__: one None per element of self.procs is put on the work queue, every element of self.procs is "
              "joined when its exitcode is None, and the manager is shut down only after the join loop", floor=3)
     f = prog.method(pf.pool, "__exit__")
+    mgr_fields = manager_fields(prog, pf.pool)
     rep.fn(f)
     sn = f.self_name
     body = f.node.body
@@ -307,7 +308,7 @@ def r5_exit(prog, rep: Report, pf: PoolFacts):
                 join_ok = on_p and g_ok and no_skip
         for c in ast.walk(st):
             if isinstance(c, ast.Call) and isinstance(c.func, ast.Attribute) and c.func.attr in ("__exit__", "shutdown") \
-                    and "manager" in src(c.func.value).lower():
+                    and is_manager_expr(c.func.value, sn, mgr_fields):
                 mgr_i = i if mgr_i is None else mgr_i
     rep.check("C04.R5", f, "sentinels", sent_i is not None and sent_ok, "one None per element of self.procs on the work queue",
               "__exit__ does not put exactly one None per element of self.procs on the work queue",
